@@ -914,7 +914,7 @@ mod codecs18 {
             if v.to_string() != t { return Err(fail(t, "ParsedVcs: printing a parsed canonical text does not return that text", t.into(), v.to_string())); }
         }
         // package-list entries with several extra pairs: the same text parsed again and again prints the same text
-        for t in ["foo deb net optional", "foo deb net optional arch=any", "foo deb net optional arch=any essential=no profile=!stage1"] {
+        for t in ["foo deb net optional", "foo deb net optional arch=any", "foo deb net optional arch=any essential=no profile=!stage1", "foo deb net optional k=a=b"] {
             for _ in 0..12 {
                 n += 1;
                 let v = debian_control::fields::PackageListEntry::from_str(t).map_err(|e| fail(t, "PackageListEntry rejects a canonical text", "Ok".into(), e))?;
